@@ -304,6 +304,71 @@ impl Data {
         Ok(ids)
     }
 
+    /// The same regions queried one after the other on ONE reader (after a full scan to the end
+    /// of the file when `scan_first`): what a program serving several requests from an open file
+    /// does. A query must not depend on where earlier use left the reader.
+    fn query_sequence(&self, ix: &Ix, regions: &[Region], scan_first: bool) -> std::io::Result<Vec<std::io::Result<Vec<String>>>> {
+        let mut out = Vec::new();
+        match self {
+            Data::Bam { bytes, header } => {
+                let mut r = bam::io::Reader::new(Cursor::new(&bytes[..]));
+                r.read_header()?;
+                if scan_first {
+                    for rec in r.records() {
+                        rec?;
+                    }
+                }
+                for region in regions {
+                    let reg = noodles_region(region);
+                    out.push((|| {
+                        let q = match ix {
+                            Ix::Linear(i) => r.query(header, i, &reg)?,
+                            Ix::Binned(i) => r.query(header, i, &reg)?,
+                        };
+                        q.records().map(|rec| rec.map(|rec| bam_id(&rec))).collect()
+                    })());
+                }
+            }
+            Data::Vcf { bytes, .. } => {
+                let mut r = vcf::io::Reader::new(bgzf::io::Reader::new(Cursor::new(&bytes[..])));
+                let h = r.read_header()?;
+                if scan_first {
+                    let mut rec = vcf::Record::default();
+                    while r.read_record(&mut rec)? != 0 {}
+                }
+                for region in regions {
+                    let reg = noodles_region(region);
+                    out.push((|| {
+                        let q = match ix {
+                            Ix::Linear(i) => r.query(&h, i, &reg)?,
+                            Ix::Binned(i) => r.query(&h, i, &reg)?,
+                        };
+                        q.records().map(|rec| rec.map(|rec| rec.ids().as_ref().to_string())).collect()
+                    })());
+                }
+            }
+            Data::Bcf { bytes } => {
+                let mut r = bcf::io::Reader::new(Cursor::new(&bytes[..]));
+                let h = r.read_header()?;
+                if scan_first {
+                    let mut rec = bcf::Record::default();
+                    while r.read_record(&mut rec)? != 0 {}
+                }
+                for region in regions {
+                    let reg = noodles_region(region);
+                    out.push((|| {
+                        let q = match ix {
+                            Ix::Linear(i) => r.query(&h, i, &reg)?,
+                            Ix::Binned(i) => r.query(&h, i, &reg)?,
+                        };
+                        q.records().map(|rec| rec.map(|rec| String::from_utf8_lossy(rec.ids().as_ref()).to_string())).collect()
+                    })());
+                }
+            }
+        }
+        Ok(out)
+    }
+
     fn query_unmapped(&self, ix: &Ix) -> Option<std::io::Result<Vec<(String, bool, bool)>>> {
         match self {
             Data::Bam { bytes, .. } => Some((|| {
@@ -563,6 +628,8 @@ fn check_files(c: &Case) -> Verdict {
     let mut any_nonempty = false;
     let mut labels: Vec<&'static str> = Vec::new();
     let mut n_queries = 0u64;
+    // (region, answer of a fresh reader) per successful query with the written-and-read index
+    let mut fresh: Vec<(Region, Vec<String>)> = Vec::new();
     for spec in &c.regions {
         let region = spec.resolve(&c.set, &sorted, &span_list);
         let empty_interval = region.is_empty_interval();
@@ -588,6 +655,9 @@ fn check_files(c: &Case) -> Verdict {
                     continue;
                 }
             };
+            if variant == "file" {
+                fresh.push((region.clone(), got.clone()));
+            }
             if empty_interval {
                 // start > end: only sanity (records of the named reference, no duplicates)
                 let mut seen = std::collections::BTreeSet::new();
@@ -661,6 +731,40 @@ fn check_files(c: &Case) -> Verdict {
         }
     }
 
+    // 4b. one reader for all regions: in the generated order, in reverse (late regions first), and
+    // after a scan to the end of the file; every answer must be the fresh reader's
+    let mut reused_reader_queries = 0u64;
+    if fresh.len() >= 2 && fails.is_empty() {
+        let fwd: Vec<Region> = fresh.iter().map(|(r, _)| r.clone()).collect();
+        let mut order_desc: Vec<usize> = (0..fresh.len()).collect();
+        order_desc.sort_by_key(|&i| std::cmp::Reverse((fresh[i].0.rid, fresh[i].0.start.unwrap_or(0))));
+        let desc: Vec<Region> = order_desc.iter().map(|&i| fresh[i].0.clone()).collect();
+        let id: Vec<usize> = (0..fresh.len()).collect();
+        for (how, regions, order, scan_first) in [("in the generated order", &fwd, &id, false), ("latest region first", &desc, &order_desc, false), ("after a scan to the end of the file", &fwd, &id, true)] {
+            match data.query_sequence(&file, regions, scan_first) {
+                Err(e) => fails.push(format!("c04.{}.reused-reader.error", kind_name(c.kind)), format!("preparing one reader for several queries ({how}): {e}")),
+                Ok(answers) => {
+                    for (k, ans) in answers.iter().enumerate() {
+                        reused_reader_queries += 1;
+                        let (region, want) = &fresh[order[k]];
+                        match ans {
+                            Ok(got) if got == want => {}
+                            Ok(got) => {
+                                fails.push(format!("c04.{}.reused-reader.differs", kind_name(c.kind)), format!("{} index (file) ({},{}): query {} as query #{k} on one reader ({how}) returned {:?}, a fresh reader returns {:?}", kind_name(c.kind), g.min_shift, g.depth, describe_region(region), trunc(&format!("{got:?}"), 300), trunc(&format!("{want:?}"), 300)));
+                                break;
+                            }
+                            Err(e) => {
+                                fails.push(format!("c04.{}.reused-reader.error", kind_name(c.kind)), format!("query {} as query #{k} on one reader ({how}) fails: {e}; a fresh reader answers", describe_region(region)));
+                                break;
+                            }
+                        }
+                    }
+                }
+            }
+        }
+    }
+    n_queries += reused_reader_queries;
+
     // 5. unmapped query (BAM)
     let tail: Vec<String> = truth.iter().filter(|t| t.rid.is_none()).map(|t| sorted::ident(t.idx)).collect();
     let mut placed_unmapped_returned = false;
@@ -692,6 +796,7 @@ fn check_files(c: &Case) -> Verdict {
     let mut p = Pass::new(nontrivial, key)
         .evals(n_queries.max(1))
         .label(kind_name(c.kind))
+        .label_if(reused_reader_queries > 0, "several-queries-on-one-reader")
         .label_if(lbs, "long-before-short-in-leaf")
         .label_if(lbs && !mem.is_binned(), "linear-index+long-before-short")
         .label_if(lbs && mem.is_binned(), "binned-index+long-before-short")
